@@ -18,7 +18,7 @@ ASSUMPTIONS = [LEVEL_NOTE, "readelf is ground truth for the symbol table; the ge
 
 
 def plan(tier):
-    return {"n": 200 if tier == "quick" else 2500, "floor": 40 if tier == "quick" else 500}
+    return {"n": 200 if tier == "quick" else 800, "floor": 40 if tier == "quick" else 160}
 
 
 def rule(tier):
